@@ -294,6 +294,88 @@ theorem size_bound_early (w : Nat) (hw : 1 ≤ w) (ks : List K) (hN : ks.length 
     _ ≤ w * 2 := Nat.mul_le_mul_left _ (by omega)
     _ = 2 * w := Nat.mul_comm ..
 
+/-! ### histories with calls that raise part-way (an unhashable key in the middle of an iterable, a
+non-integer count, an `items()` that raises): the additions of such a call are the ones performed before the
+exception, and the history is an ordinary history of those - so every theorem above applies to it -/
+
+/-- a call that raises part-way is `update(the keys it got through)`: its additions are the ones performed
+    before the exception, it raises iff the argument has an element the counter cannot take, and `total`
+    grows by exactly the number of additions performed -/
+theorem raising_call_is_prefix_update (s : TC K) (xs : List (Option K)) :
+    (s.attempt xs).1 = s.step (.updateKeys (goodPrefix xs))
+    ∧ ((s.attempt xs).2 = true ↔ none ∈ xs)
+    ∧ (s.attempt xs).1.total = s.total + (goodPrefix xs).length := by
+  refine ⟨rfl, ?_, by simp [TC.attempt, addAll_total]⟩
+  induction xs with
+  | nil => simp [TC.attempt, hasBad]
+  | cons x xs ih =>
+    cases x with
+    | none => simp [TC.attempt, hasBad]
+    | some k => simpa [TC.attempt, hasBad] using ih
+
+/-- a rejected key leaves no trace: `add(unhashable)` (and an `update` whose FIRST element is rejected)
+    raises with the counter - `total` included - exactly as it was -/
+theorem rejected_add_leaves_no_trace (s : TC K) (xs : List (Option K)) :
+    s.attempt (none :: xs) = (s, true) := by
+  simp [TC.attempt, goodPrefix, hasBad, TC.addAll]
+
+/-- a call without such an element is the ordinary `update(iterable)` and does not raise -/
+theorem attempt_all_good (s : TC K) (ks : List K) :
+    s.attempt (ks.map some) = (s.step (.updateKeys ks), false) := by
+  have h1 : ∀ l : List K, goodPrefix (l.map some) = l := by
+    intro l
+    induction l with
+    | nil => rfl
+    | cons k l ih => simp [goodPrefix, ih]
+  have h2 : ∀ l : List K, hasBad (l.map some) = false := by
+    intro l
+    induction l with
+    | nil => rfl
+    | cons k l ih => simp [hasBad, ih]
+  simp [TC.attempt, h1, h2, TC.step, Op.flatten]
+
+/-- a history in which some calls raised part-way IS the history of the operations that took effect -/
+theorem raising_calls_are_history (w : Nat) (calls : List (Call K)) :
+    TC.runCalls w calls = TC.run w (calls.map Call.effective) := by
+  unfold TC.runCalls TC.run
+  generalize (TC.init w : TC K) = s
+  induction calls generalizing s with
+  | nil => rfl
+  | cons c cs ih =>
+    simp only [List.foldl_cons, List.map_cons]
+    rw [ih]
+    cases c <;> rfl
+
+/-- … hence, after any such history: `total` is the number of additions that took effect, no count exceeds
+    the key's true count among THOSE, the shortfall is within `floor(total / w)`, and
+    `get_common_count() + get_uncommon_count() == total` - earlier failed calls do not disturb the accounting -/
+theorem accounting_after_raising_calls (w : Nat) (hw : 1 ≤ w) (calls : List (Call K)) (k : K) :
+    let s := TC.runCalls w calls
+    let done := stream (calls.map Call.effective)
+    s.total = done.length ∧ s.get k ≤ done.count k ∧ done.count k - s.get k ≤ s.total / w
+      ∧ s.commonCount + s.uncommonCount = s.total := by
+  intro s done
+  have hs : s = reach w done := by
+    show TC.runCalls w calls = _
+    rw [raising_calls_are_history, history_is_stream]
+  rw [hs]
+  exact ⟨total_eq_additions w done, count_le_true w hw done k, undercount_le w hw done k,
+         common_plus_uncommon w hw done⟩
+
+/-- why `add` must not count a key before it has stored it (the behaviour before fix `ba7c963`:
+    `total += 1`, then the dict operation raises): with bucket width 2, one rejected key followed by ONE
+    addition of key 0 reaches a compaction at `total = 2` that drops key 0 - one addition, true count 1,
+    reported 0, slack `floor(1/2) = 0`; and `total` is 2 after 1 addition -/
+theorem rejected_key_counted_breaks_statement :
+    ∃ (s : TC Nat), s = ((TC.init 2 : TC Nat).bumpOnly).add 0
+      ∧ s.total = 2 ∧ s.get 0 = 0 ∧ ¬ ([0].count 0 - s.get 0 ≤ [0].length / 2) :=
+  ⟨_, rfl, by decide, by decide, by decide⟩
+
+/-- `update(other.elements())` is `update(other)`: the elements are the mapping's additions in order -/
+theorem update_elements_eq_absorb (s src : TC K) :
+    s.step (.updateKeys src.elements) = s.absorb src := by
+  simp only [TC.absorb, TC.step, Op.flatten, expand, TC.elements, TC.items, List.flatMap_map]
+
 /-! non-vacuity: a concrete stream on which keys are evicted and under-counted -/
 example : (reach 3 [0, 1, 1, 0, 2, 2, 0]).items = [(2, 2), (0, 1)] := by decide
 example : ((reach 3 [0, 1, 1, 0, 2, 2, 0]).get 0, [0, 1, 1, 0, 2, 2, 0].count 0,
@@ -323,5 +405,13 @@ example : ((TC.run 9 [Op.updateMapKw [(0, 3), (1, 1)] [(0, 2)]]).get 0,
 -- self-update doubles the reported counts
 example : (((TC.run 9 [Op.updateKeys [0, 0, 1]]).absorb (TC.run 9 [Op.updateKeys [0, 0, 1]])).items)
     = [(0, 4), (1, 2)] := by decide
+
+-- update(['0', [], '1']) at width 2 after one addition of 0: the call raises, 0 was added once more, 1 never;
+-- add([]) changes nothing; a bad keyword count after a good positional part: the positional part stays
+example : ((TC.init 2 : TC Nat).add 0).attempt [some 0, none, some 1] = (reach 2 [0, 0], true) := by decide
+example : (reach 2 [0]).attempt [none] = (reach 2 [0], true) := by decide
+example : ((reach 9 [0]).attempt ([some 1] ++ expandX [some (0, 2), none, some (1, 5)])).1.items = [(0, 3), (1, 1)] := by decide
+example : (TC.runCalls 2 [.ok (.add 0), .partly [none], .ok (.add 0), .partly [some 1, none, some 0]]).total = 3 := by decide
+example : (reach 9 [0, 0, 1]).step (.updateKeys (reach 9 [0, 0, 1]).elements) = reach 9 [0, 0, 1, 0, 0, 1] := by decide
 
 end C20
